@@ -326,7 +326,9 @@ public:
       Cal["inrepo"] = inRepo(CD->getLocation());
       if (CD->isCopyOrMoveConstructor()) Cal["copy"] = true;
       if (CD->isImplicit() || CD->isDefaulted()) Cal["implicit"] = true;
+      if (CD->isTrivial()) Cal["trivial"] = true;
       O["callee"] = std::move(Cal);
+      if (CE->requiresZeroInitialization()) O["zeroing"] = true;
       json::Array Args;
       for (const Expr *A : CE->arguments()) Args.push_back(stmt(A));
       O["args"] = std::move(Args);
